@@ -90,6 +90,7 @@ func runCheck(id string, o checkOpts) (*checkResult, error) {
 	res := &checkResult{Known: map[string][]*eng.Obligation{}}
 	res.LoadErrs = p.LoadErrs
 	e := eng.NewEngine(p)
+	e.CheckProp = id
 	res.Engine = e
 	if len(p.LoadErrs) > 0 {
 		// the repository (with contracts) does not type-check: every proof is void
